@@ -246,7 +246,8 @@ _EXTRA = {
     "C11": ["samples:BaseSamples.from_samples"],
     "C12": ["samplers.smc.base:SMCSampler.build_checkpoint_state"],
     "C13": ["samples:BaseSamples.__setstate__", "transforms:CompositeTransform.__init__"],
-    "C15": ["flows.jax.flows:FlowJax.save", "flows.torch.flows:BaseTorchFlow.save", "samples:BaseSamples.from_dict", "samples:Samples.rejection_sample"],
+    "C15": ["flows.jax.flows:FlowJax.save", "flows.torch.flows:BaseTorchFlow.save", "samples:BaseSamples.from_dict", "samples:Samples.rejection_sample",
+            "transforms:CompositeTransform.forward", "transforms:CompositeTransform.inverse"],
     "C17": ["aspire:Aspire.sample_posterior", "samplers.mcmc:Emcee.sample", "samplers.mcmc:MiniPCN.sample"],
     "C18": ["samplers.smc.emcee:EmceeSMC.mutate", "samplers.smc.minipcn:MiniPCNSMC.mutate"],
     "C20": ["flows.jax.flows:FlowJax.sample_and_log_prob", "samplers.importance:ImportanceSampler.sample"],
